@@ -172,6 +172,151 @@ pub fn case_line(allow_slow: bool, budget: Option<usize>, schema: &RawSchema, v:
 	w.s
 }
 
+/// Every leaf type that accepts several presentations (fixed, duration, decimals, enum, bytes,
+/// string, uuid) × the presentations around each boundary the serializer checks: lengths one
+/// short / exact / one long, advertised lengths that lie, elements of the wrong type or out of the
+/// byte range, duration given as tuple / sequence / struct / map with missing, repeated, unknown
+/// or out-of-range members, enum by index / name / number at and beyond the symbol count - each
+/// with and without `allow_slow_sequence_to_bytes`. What the serializer answers is the model's;
+/// what it must answer where it returns `Ok` is the specification's (judge).
+pub fn generate_leaf_table(emit: &mut dyn FnMut(String)) {
+	use crate::proto::BigI;
+	let nd = |reg: Reg, logical: Option<Logical>| RawNode { reg, logical };
+	let u = |t: IntTy, v: u128| SV::Int(t, BigI::Pos(v));
+	let i = |t: IntTy, v: i128| SV::Int(t, BigI::from_i128(v));
+	let u8s = |bs: &[u8]| -> Vec<SV> { bs.iter().map(|b| SV::Int(IntTy::U8, BigI::Pos(*b as u128))).collect() };
+	let mut cases: Vec<(RawSchema, SV)> = vec![];
+	// fixed / bytes / string / uuid / decimal-on-fixed: byte-like presentations
+	let byte_like: Vec<(RawNode, usize)> = vec![
+		(nd(Reg::Fixed("F".into(), 0), None), 0),
+		(nd(Reg::Fixed("F".into(), 1), None), 1),
+		(nd(Reg::Fixed("F".into(), 3), None), 3),
+		(nd(Reg::Bytes, None), 3),
+		(nd(Reg::String, None), 3),
+		(nd(Reg::String, Some(Logical::Uuid)), 3),
+		(nd(Reg::Fixed("F".into(), 2), Some(Logical::Decimal(1, 4))), 2),
+		(nd(Reg::Bytes, Some(Logical::Decimal(2, 6))), 3),
+		(nd(Reg::Fixed("D".into(), 12), Some(Logical::Duration)), 12),
+	];
+	for (node, size) in &byte_like {
+		let sch = vec![node.clone()];
+		let lens: Vec<usize> = [size.saturating_sub(1), *size, size + 1].into_iter().collect();
+		for &l in &lens {
+			let bs: Vec<u8> = (0..l).map(|k| 0x61 + k as u8).collect();
+			cases.push((sch.clone(), SV::Bytes(bs.clone())));
+			cases.push((sch.clone(), SV::Str(String::from_utf8(bs.clone()).unwrap())));
+			cases.push((sch.clone(), SV::Tuple(u8s(&bs))));
+			cases.push((sch.clone(), SV::TupleStruct("T".into(), u8s(&bs))));
+			for adv in [None, Some(l), Some(l + 1), Some(l.saturating_sub(1)), Some(0)] {
+				cases.push((sch.clone(), SV::Seq(adv, u8s(&bs))));
+			}
+			// an element that is not a byte
+			if l > 0 {
+				let mut es = u8s(&bs);
+				es[l - 1] = u(IntTy::I64, 300);
+				cases.push((sch.clone(), SV::Seq(Some(l), es.clone())));
+				cases.push((sch.clone(), SV::Tuple(es)));
+				let mut es = u8s(&bs);
+				es[0] = i(IntTy::I8, -1);
+				cases.push((sch.clone(), SV::Seq(None, es)));
+				let mut es = u8s(&bs);
+				es[0] = SV::Str("a".into());
+				cases.push((sch.clone(), SV::Tuple(es)));
+				let mut es = u8s(&bs);
+				es[l - 1] = u(IntTy::U64, 255);
+				cases.push((sch.clone(), SV::Seq(Some(l), es)));
+			}
+		}
+		cases.push((sch.clone(), SV::Bytes(vec![0xff, 0xfe, 0x00][..(*size).min(3)].to_vec())));
+		cases.push((sch.clone(), SV::Char('a')));
+		cases.push((sch.clone(), SV::Char('é')));
+		cases.push((sch.clone(), SV::Unit));
+		cases.push((sch.clone(), SV::None));
+		cases.push((sch.clone(), SV::Some(Box::new(SV::Bytes(vec![0x61; *size])))));
+		cases.push((sch.clone(), SV::NewtypeStruct("N".into(), Box::new(SV::Bytes(vec![0x61; *size])))));
+	}
+	// duration: the three members in every container shape
+	let dur = vec![nd(Reg::Fixed("D".into(), 12), Some(Logical::Duration))];
+	let names = ["months", "days", "milliseconds"];
+	let vals = |a: u128, b: u128, c: u128| vec![u(IntTy::U32, a), u(IntTy::U32, b), u(IntTy::U32, c)];
+	for (a, b, c) in [(1u128, 2u128, 3u128), (0, 0, 0), (u32::MAX as u128, 1, 0)] {
+		let v = vals(a, b, c);
+		cases.push((dur.clone(), SV::Tuple(v.clone())));
+		cases.push((dur.clone(), SV::TupleStruct("D".into(), v.clone())));
+		cases.push((dur.clone(), SV::Seq(Some(3), v.clone())));
+		cases.push((dur.clone(), SV::Seq(None, v.clone())));
+		cases.push((dur.clone(), SV::Tuple(v[..2].to_vec())));
+		cases.push((dur.clone(), SV::Tuple([v.clone(), vec![u(IntTy::U32, 4)]].concat())));
+		for order in [[0usize, 1, 2], [2, 1, 0], [1, 0, 2], [0, 2, 1]] {
+			let fs: Vec<(String, SV)> = order.iter().map(|&k| (names[k].to_string(), v[k].clone())).collect();
+			cases.push((dur.clone(), SV::Struct("Duration".into(), fs.clone())));
+			cases.push((dur.clone(), SV::Map(Some(3), fs.iter().map(|(k, x)| (SV::Str(k.clone()), x.clone())).collect(), true)));
+			cases.push((dur.clone(), SV::Map(None, fs.iter().map(|(k, x)| (SV::Str(k.clone()), x.clone())).collect(), false)));
+			// one missing, one repeated, one unknown, one misnamed
+			let mut m = fs.clone();
+			m.pop();
+			cases.push((dur.clone(), SV::Struct("Duration".into(), m.clone())));
+			cases.push((dur.clone(), SV::Map(Some(2), m.iter().map(|(k, x)| (SV::Str(k.clone()), x.clone())).collect(), true)));
+			let mut r = fs.clone();
+			r.push(fs[0].clone());
+			cases.push((dur.clone(), SV::Struct("Duration".into(), r.clone())));
+			cases.push((dur.clone(), SV::Map(None, r.iter().map(|(k, x)| (SV::Str(k.clone()), x.clone())).collect(), true)));
+			let mut r2 = fs.clone();
+			r2[2] = fs[0].clone();
+			cases.push((dur.clone(), SV::Struct("Duration".into(), r2.clone())));
+			cases.push((dur.clone(), SV::Map(Some(3), r2.iter().map(|(k, x)| (SV::Str(k.clone()), x.clone())).collect(), false)));
+			let mut k = fs.clone();
+			k.push(("years".into(), u(IntTy::U32, 1)));
+			cases.push((dur.clone(), SV::Struct("Duration".into(), k.clone())));
+			cases.push((dur.clone(), SV::Map(Some(4), k.iter().map(|(k, x)| (SV::Str(k.clone()), x.clone())).collect(), true)));
+			let mut w = fs.clone();
+			w[1].0 = "Months".into();
+			cases.push((dur.clone(), SV::Struct("Duration".into(), w.clone())));
+			cases.push((dur.clone(), SV::Map(Some(3), w.iter().map(|(k, x)| (SV::Str(k.clone()), x.clone())).collect(), true)));
+		}
+	}
+	// members out of range or of another type
+	for bad in [u(IntTy::U64, 1 << 32), i(IntTy::I32, -1), SV::Str("1".into()), SV::F64(1.0f64.to_bits()), u(IntTy::U128, u128::MAX), SV::Unit] {
+		cases.push((dur.clone(), SV::Tuple(vec![u(IntTy::U32, 1), bad.clone(), u(IntTy::U32, 3)])));
+		cases.push((
+			dur.clone(),
+			SV::Struct("Duration".into(), vec![("months".into(), u(IntTy::U32, 1)), ("days".into(), bad.clone()), ("milliseconds".into(), u(IntTy::U32, 3))]),
+		));
+		cases.push((
+			dur.clone(),
+			SV::Map(Some(3), vec![(SV::Str("months".into()), u(IntTy::U32, 1)), (SV::Str("days".into()), bad.clone()), (SV::Str("milliseconds".into()), u(IntTy::U32, 3))], true),
+		));
+	}
+	cases.push((dur.clone(), SV::Map(Some(3), vec![(u(IntTy::U32, 0), u(IntTy::U32, 1)), (u(IntTy::U32, 1), u(IntTy::U32, 1)), (u(IntTy::U32, 2), u(IntTy::U32, 1))], true)));
+	cases.push((dur.clone(), SV::Map(Some(1), vec![(SV::Unit, u(IntTy::U32, 1))], true)));
+	// enum: by variant, by name, by number - at and beyond the ends
+	let en = vec![nd(Reg::Enum("E".into(), vec!["A".into(), "B".into()]), None)];
+	for k in 0..4u32 {
+		for name in ["A", "B", "C", ""] {
+			cases.push((en.clone(), SV::UnitVariant("E".into(), k, name.into())));
+		}
+	}
+	for name in ["A", "B", "C", "", "a"] {
+		cases.push((en.clone(), SV::Str(name.into())));
+		cases.push((en.clone(), SV::UnitStruct(name.into())));
+	}
+	for v in [0i128, 1, 2, -1, i32::MAX as i128, i64::MAX as i128, i64::MAX as i128 + 1, u64::MAX as i128] {
+		for t in IntTy::ALL.iter().copied() {
+			let b = BigI::from_i128(v);
+			if b.fits(t) {
+				cases.push((en.clone(), SV::Int(t, b)));
+			}
+		}
+	}
+	cases.push((en.clone(), u(IntTy::U128, u128::MAX)));
+	cases.push((en.clone(), u(IntTy::U128, 1 << 127)));
+	for (sch, v) in cases {
+		for allow_slow in [false, true] {
+			emit(case_line(allow_slow, None, &sch, &v));
+		}
+	}
+}
+
 pub fn generate(stream: &str, seed: u64, n: usize, emit: &mut dyn FnMut(String)) {
 	let mut rng = rng_from(seed, stream);
 	for i in 0..n {
